@@ -411,7 +411,7 @@ class Scan(Generic[Carry, Y], GenerativeFunction[tuple[Carry, Y]]):
             ),
             w + (next_w * (idx + 1 < max_length)),
             # We always set the carried out value to be an unknown change, conservatively.
-            (Diff.unknown_change(old_carried_out), new_scanned_retdiff),
+            (Diff.unknown_change(carried_out), new_scanned_retdiff),
             IndexRequest(idx, bwd_request),
         )
 
